@@ -606,6 +606,18 @@ class SInt:
     def __repr__(s):
         return "SInt(%s)" % z3.simplify(s.e)
 
+    def __format__(s, spec):
+        """symbolic ints rendered into text become placeholders that a stub
+        on the other side of the text interface can map back (``unformat``)"""
+        e = z3.simplify(s.e)
+        if z3.is_int_value(e):
+            return format(e.as_long(), spec)
+        tab = Engine.cur.__dict__.setdefault("fmt_table", [])
+        tab.append((s, spec))
+        return "\x00%d\x00" % (len(tab) - 1)
+
+    __str__ = lambda s: s.__format__("")
+
 
 def pyfloordiv(a, b):
     # z3 Int division is euclidean: a = b*q + r with 0 <= r < |b|
@@ -924,6 +936,14 @@ def ite(c, a, b):
     if isinstance(a, (SReal, float)) or isinstance(b, (SReal, float)):
         return SReal(z3.If(c, toreal(a), toreal(b)))
     return SInt(z3.If(c, toint(a), toint(b)))
+
+
+def unformat(text):
+    """inverse of SInt.__format__: text -> SInt | int"""
+    text = text.strip()
+    if text.startswith("\x00") and text.endswith("\x00"):
+        return Engine.cur.fmt_table[int(text[1:-1])][0]
+    return int(text)
 
 
 def rebind(func, **glb):
